@@ -501,17 +501,14 @@ class Checker:
         unless the finding is recorded as fixed)"""
         fid = self.finding_of(v["fails"][0])
         status = self.listed.get(fid)
-        if status == "fixed":
+        if status != "open":            # repaired (the class has returned) or not listed at all: a violation like any other
             return False
         self.bump("finding:" + fid)
         if fid == FID_YAML_BIG:
             what = "--yaml-output writes the *big.Int %s as a quoted string; --yaml-input reads a string back" % show(case["vs"][0], 60)
         else:
             what = "--yaml-input hands YAML number literals through verbatim: stdout %r is not JSON" % bytes(rec["yin"]["out"][:80]).decode("latin1")
-        if status == "open":
-            self.rep.known_finding(fid, what)
-        elif self.counters["finding:" + fid] == 1:
-            vc.log("finding %s matched (not listed in known_findings.json): %s" % (fid, what))
+        self.rep.known_finding(fid, what)
         return True
 
     def report(self, case, rec, v):
